@@ -992,7 +992,9 @@ func targets(w *world) (out []target) {
 					gone = false
 				}
 			}
-			if gone {
+			// (a rule removed from a file that is renamed in the same pull request is reported under the
+			// old path, which neither platform lists as a file of the pull request: outside the domain)
+			if gone && !f.IsRenamed() {
 				out = append(out, target{fi, true, ri, r.Lines.First, r.Lines.Last})
 			}
 		}
